@@ -26,17 +26,19 @@ Atanh(z, K) == AtanhIter(Tr(BRMul(z, z)), z, 0, K, BRZero)
 \* ln 2 = 2 atanh(1/3); remainder after 90 terms < (1/9)^90 < 2^-285
 Ln2 == BRMul(BR(2), Atanh(BRFrac(1, 3), 90))
 
-\* ln q for a positive rational q.  q = m * 2^e with m in (0.707, 1.4141]; ln m = 2 atanh((m-1)/(m+1)),
-\* |z| <= 0.1716, remainder after 60 terms < 0.1716^121 < 2^-300.
+\* ln((16+k)/16) = 2 atanh(k/(32+k)), k = 0..15: evaluated once (constant-level definition)
+LnTab == [k \in 0..15 |-> IF k = 0 THEN BRZero ELSE BRMul(BR(2), Atanh(BRFrac(k, 32 + k), 70))]
+
+\* ln q for a positive rational q.  q = m 2^e, m in [1,2); k = floor(16(m-1)); r = 16m/(16+k) in [1, 17/16);
+\* ln q = e ln 2 + ln((16+k)/16) + 2 atanh((r-1)/(r+1)), |z| < 1/33, remainder after 30 terms < 33^-61 < 2^-300.
 LnApprox(q) ==
-    LET e0 == BRILog2(q)
-        m0 == BRMul(q, BRPow2(-e0))                       \* in [1, 2)
-        big == BRGt(m0, BRFrac(181, 128))
-        e  == IF big THEN e0 + 1 ELSE e0
-        m  == IF big THEN BRMul(m0, BRFrac(1, 2)) ELSE m0
-        z  == BRDiv(BRSub(m, BROne), BRAdd(m, BROne))
+    LET e == BRILog2(q)
+        m == BRMul(q, BRPow2(-e))
+        k == BRFloorInt(BRMul(BRSub(m, BROne), BR(16)))
+        r == BRDiv(BRMul(m, BR(16)), BR(16 + k))
+        z == BRDiv(BRSub(r, BROne), BRAdd(r, BROne))
     IN  IF q = BROne THEN BRZero
-        ELSE BRAdd(BRMul(BR(e), Ln2), BRMul(BR(2), Atanh(z, 60)))
+        ELSE BRAdd(BRAdd(BRMul(BR(e), Ln2), LnTab[k]), BRMul(BR(2), Atanh(z, 30)))
 LnLo(q) == BRSub(LnApprox(q), ErrAbs)
 LnHi(q) == BRAdd(LnApprox(q), ErrAbs)
 
